@@ -218,7 +218,7 @@ PROPS["C18"] = {
             "assertion, std::terminate, sanitizer report or a CPU budget hit (10 s for <= 4 KiB of input; lexer and parser are linear) is a violation after three reproductions. "
             "network (valid API histories of C07 with all theories, oracles off, LeakSanitizer at process end): any abnormal termination or leak is a violation. "
             "Non-trivial: bytes - input of >= 12 bytes; network - the history contains a conflict with a learnt clause, a backjump or a theory lemma. Distinct by input text / rendered history.",
-    "technique": "property-based fuzzing with a grammar-based mutator and sanitizers; crash / hang oracle in forked children",
+    "technique": "property-based fuzzing with a grammar-based mutator and sanitizers (crash / hang / leak oracle in forked children) plus a coverage-guided libFuzzer campaign on the reader with metamorphic and leak oracles in the target",
     "level_text": "Generated invalid, truncated and valid inputs under ASan/UBSan/assertions; bounded time approximated by a generous CPU budget.",
     "level_note": "Trusted: sanitizers and assertions as crash oracles; CPU-time budget (RLIMIT_CPU) rather than wall clock, so load cannot produce an alarm. Valid programs through read()+solve() "
                   "are exercised by the solver-level runs when present.",
@@ -227,7 +227,7 @@ PROPS["C18"] = {
 
 # exclusion predicates of the typed problem generator (one per known finding, see known_findings.jsonl and DESIGN.md section 5);
 # they are switched on for every solver-level run so that the search continues behind the confirmed findings
-GEN_EXCL = ["relations_only_positive", "disjunction_only_asserted", "object_constraints_consistent", "rr_single_atom_fits_every_candidate", "one_atom_per_tau_variable", "one_delay_per_tick", "adapt_only_last_pending"]
+GEN_EXCL = ["relations_only_positive", "disjunction_only_asserted", "object_constraints_consistent", "rr_single_atom_fits_every_candidate", "one_atom_per_tau_variable", "one_delay_per_tick", "adapt_only_last_pending", "adapt_counts_unified_atoms"]
 QUICK_CFGS = ["dbg", "dbg-hadd-ci"]
 ALL_CFGS = ["dbg", "dbg-hadd", "dbg-ci", "dbg-hadd-ci", "rel", "rel-hadd", "rel-ci", "rel-hadd-ci"]
 
@@ -272,9 +272,11 @@ PROPS["C02"] = {
     "rule": "Same generator as C01. (a) Free problems of layers L0/L1 are translated to Z3 (reals, booleans, finite-domain integers for object variables, field accesses as ite chains): "
             "'unsolvable' (false from solve(), unsolvable / inconsistency exception from read() or solve()) while Z3 finds a model is a violation. (b) Planted problems of all layers "
             "(a witness assignment / schedule is drawn first and every emitted constraint is true under it) must never be declared unsolvable. Non-trivial: the verdict was unsolvable, or the "
-            "problem was planted. Distinct by program text. Metamorphic variants and the learnt-clause entailment oracle at solver level were not built; learnt clauses are checked at "
-            "network level (C07, C09, C10).",
-    "technique": "property-based testing: differential against Z3 on the decidable fragment, planted solutions elsewhere",
+            "problem was planted. Distinct by program text. (c) For every third L0/L1 program (chosen by a hash of its text) three semantically equivalent formulations are solved as well - every "
+            "generated identifier renamed consistently, tautologies appended ('true;', 'x <= x + 1.0;', 'b -> b;'), the independent single-line statements of the second read() in reverse "
+            "order - and must get the verdict of the original (counter metamorphic_variants). The learnt-clause entailment oracle at solver level was not built; learnt clauses are "
+            "checked at network level (C07, C09, C10).",
+    "technique": "property-based testing: differential against Z3 on the decidable fragment, planted solutions elsewhere, metamorphic relation over equivalent formulations",
     "level_text": "Ground truth is complete only for the constraint fragment; for timelines only planted problems are judged. A wrong 'unsolvable' on an unplanted planning problem is invisible.",
     "level_note": _PROB_TRUST,
     "assumptions": ["search is bounded by a 20 s CPU budget per case; budget hits are inconclusive"],
@@ -333,11 +335,23 @@ PROPS["C16"]["rule"] = PROPS["C16"]["rule"].replace("Three parser-level sub-chec
     "constants>;' (products and quotients of constants, constant * expression, unary minus, all relations, & ^ ! == != and, outside the known finding KF2, | and ->), solved in-process; "
     "the reported value of every such variable must equal the harness's exact evaluation (non-trivial: a product, division, unary minus or boolean constant expression).")
 PROPS["C16"]["assumptions"] = ["literals stay within 18 digits", "eval sub-run: '|' and '->' are generated only where a disjunction is asserted (known finding KF2)"]
+# LeakSanitizer suppression files switched on by the exclusion names of the known leak findings (see check: env_for)
+LSAN_SUPP = {"solver_teardown_keeps_flaws": "tools/lsan-kf8.supp", "builtin_type_syntax_trees_kept": "tools/lsan-kf9.supp"}
 PROPS["C18"]["runs"] = (lambda base: (lambda tier: base(tier) + [
-    {"cfg": "dbg", "harness": "h_prob", "cases": 600 if tier == "quick" else 20000, "max_size": 300, "shards": 2, "budget_ms": 20000, "excl": list(GEN_EXCL), "opts": {"layer": l},
-     "replay_args": ["--crash-violation"]} for l in ("L0", "L1", "L3")]))(PROPS["C18"]["runs"])
+    {"cfg": "dbg", "harness": "h_prob", "cases": 600 if tier == "quick" else 20000, "max_size": 300, "shards": 2, "budget_ms": 20000, "excl": list(GEN_EXCL),
+     "opts": {"layer": l}, "replay_args": ["--crash-violation"]} for l in ("L0", "L1", "L2", "L3")] + [
+    # the same programs with LeakSanitizer at the end of every case (about 0.3 s per case: matching the suppressions of the known leak findings needs symbolised stacks)
+    {"cfg": "dbg", "harness": "h_prob", "sub": "leaks", "cases": 50 if tier == "quick" else 2500, "max_size": 300, "shards": 2 if tier == "quick" else 4, "budget_ms": 20000, "excl": list(GEN_EXCL),
+     "opts": {"layer": l, "leakcheck": "1"}, "leak": True, "replay_args": ["--crash-violation"]} for l in ("L0", "L1", "L2", "L3")] + [
+    {"kind": "fuzz", "cfg": "fz", "harness": "fz_lang", "sub": "fuzz", "cases": 6000 if tier == "quick" else 400000, "max_size": 4096, "shards": 8 if tier == "quick" else 16,
+     "seed_corpus": "corpus/lang", "dict": "corpus/riddle.dict"}]))(PROPS["C18"]["runs"])
 PROPS["C18"]["rule"] += (" programs (valid typed programs of the C01 generator, layers L0/L1/L3, through read()+solve() in the Debug+ASan+UBSan build): any signal, assertion failure, std::terminate or "
-                         "sanitizer report is a violation; a std::exception is not.")
+                         "sanitizer report is a violation; a std::exception is not; in the `leaks` sub-run LeakSanitizer runs at the end of every case (the allocation sites of the known findings KF8/KF9 "
+                         "are suppressed by allocation site, everything else is reported). "
+                         "fuzz (libFuzzer, coverage-guided, clang ASan+UBSan build of the library): byte strings mutated from the empty corpus (odd shards) or from 40 example programs of "
+                         "the repository (even shards) with a keyword dictionary; in-target oracles: parse returns or throws std::exception (crash / sanitizer report / 20 s time limit = violation), "
+                         "the same text is accepted twice or rejected twice, a trailing line comment does not change acceptance, an accepted text followed by itself is accepted, and an accepted "
+                         "text leaks nothing once the compilation unit and the parser are destroyed. Non-trivial: >= 8 non-blank characters; distinct by input hash.")
 
 
 def _c03(tier):
@@ -357,6 +371,9 @@ PROPS["C03"] = {
             "predicate object with equal, fully determined arguments. Structural level (listeners configuration dbg-l, a solver_listener records every flaw and resolver, no hook): every "
             "flaw whose phi is true has a resolver whose rho is true; an Active atom has a true activation resolver; a Unified atom has exactly one true unification resolver whose target is "
             "Active and of the same predicate; an atom whose flaw is active is Active or Unified; the graph 'gave rise to' (through resolvers true in the solution) + 'is unified with' is acyclic. "
+            "Rule application (all configurations, from the generator's own record of every rule): for every Active goal the body constraint of its rule (a <= b) holds in the reported "
+            "values, every subgoal the rule prescribes is in the plan (an Active or Unified atom of the sub-predicate with exactly the prescribed argument values), for a disjunctive body "
+            "at least one alternative is in the plan, and no goal of a predicate whose rule is 'false' is Active (counter applied_rules_checked). "
             "Non-trivial: the solution contains >= 1 unified and >= 1 active atom. Distinct by program text.",
     "technique": "property-based testing; validity predicates over the reported plan and over the derivation graph recorded through the public listener interface",
     "level_text": "Random rule structures with many unification opportunities; the derivation graph of every solution is validated. The unification target is read from the resolver's own description "
